@@ -540,7 +540,11 @@ class Engine:
         if k == "cast":
             return self.cast(state, r["ck"], self.operand(state, frame, r["o"]), r["ty"])
         if k == "bin":
-            return self.binop(r["op"], self.operand(state, frame, r["a"]), self.operand(state, frame, r["b"]))
+            res = self.binop(r["op"], self.operand(state, frame, r["a"]), self.operand(state, frame, r["b"]))
+            if r["op"].endswith("WithOverflow") and res[0] == "tuple" and res[1][1][0] == "ovf":
+                ty = r["a"].get("ty") or r["a"].get("p", {}).get("ty") or r["b"].get("ty") or r["b"].get("p", {}).get("ty")
+                res = ("tuple", (res[1][0], res[1][1] + (ty,)))
+            return res
         if k == "un":
             return self.unop(r["op"], self.operand(state, frame, r["o"]))
         if k == "discr":
@@ -749,9 +753,12 @@ class Engine:
                 if t["t"] is None:
                     # diverging call (panic): the path ends here
                     callee = t["f"].get("fn", "?") if t["f"].get("k") == "fnref" else "?"
-                    out.append((st, ("panic", callee, t.get("sp", ""))))
+                    out.append((st, ("panic", callee, t.get("sp", ""), (key, bi))))
                     continue
+                unwrapish = t["f"].get("k") == "fnref" and UNWRAP_RE.search(t["f"].get("fn", "")) is not None
                 for st2, res in self.call(st, fr, t, depth):
+                    if unwrapish:
+                        st2.trace.append(("site", (key, bi), "fail" if res[0] == "panic" else ("unknown" if res[0] in ("unwrap", "unwrap_unchecked", "app") else "safe")))
                     if res[0] == "loopback":
                         continue      # a generic iteration of a callee's loop: not a return
                     if res[0] == "panic":
@@ -770,10 +777,12 @@ class Engine:
                 exp = 1 if t["e"] else 0
                 if is_const(c):
                     if c[1] != exp:
-                        out.append((st, ("panic", "assert:" + t["m"]["k"], t.get("sp", ""))))
+                        st.trace.append(("site", (key, bi), "fail"))
+                        out.append((st, ("panic", "assert:" + t["m"]["k"], t.get("sp", ""), (key, bi))))
                         continue
+                    st.trace.append(("site", (key, bi), "safe"))
                 elif c[0] != "rtc":
-                    st.cond.append((("assert", t["m"]["k"] + (":" + t["m"]["op"] if "op" in t["m"] else ""), self.freeze(st, c)), exp))
+                    st.cond.append((("assert", t["m"]["k"] + (":" + t["m"]["op"] if "op" in t["m"] else ""), self.freeze(st, c), (key, bi)), exp))
                 work.append((st, t["t"], seen))
             elif k == "drop":
                 work.append((st, t["t"], seen))
@@ -973,6 +982,9 @@ def is_recon(P, ret, x, known):
     if ret[0] == "tuple":
         return all(is_recon(P, f, ("field", x, i), known) for i, f in enumerate(ret[1]))
     return False
+
+
+UNWRAP_RE = re.compile(r"core::(option::Option|result::Result)::<[^>]*>::(unwrap|expect|unwrap_unchecked)$")
 
 
 def is_tracing_term(t):
